@@ -223,6 +223,22 @@ def families(tier, seed):
     return fams
 
 
+def _twin_stale_plane():
+    """mutant: ConvexPolygon.move forgets to rebuild its cached plane"""
+    import Geometry3D.geometry.polygon as pg
+
+    def move(self, v):
+        if isinstance(v, Vector):
+            self.points = tuple(p.move(v) for p in self.points)
+            self.center_point = self._get_center_point()
+            return ConvexPolygon(self.points)
+        raise NotImplementedError("The second parameter for move function must be Vector")
+    pg.ConvexPolygon.move = move
+
+
+TWINS = {'ConvexPolygon.move with stale plane': (r'^step/ConvexPolygon-quad/axis/fresh$', _twin_stale_plane)}
+
+
 META = dict(
     title='move keeps objects self-consistent',
     level_text=('Inductive-step symbolic model checking of the real move() code of all seven types: an object in an arbitrary reachable state '
